@@ -23,7 +23,7 @@ theorem startAt_done (now : Int) (F : Nat) (l : List Dt) (id : Nat) (he : AllC (
   simp only [startAt, hz]
   by_cases hg : (z.fixed && canBeTriggered now z) = true
   · simp only [hg, if_true]
-    have ht : max z.start z.entry ≠ 0 := by
+    have ht : 0 < max z.start z.entry := by
       have h1 := he z hzm
       have : z.entry ≤ max z.start z.entry := Int.le_max_right _ _
       omega
@@ -36,7 +36,8 @@ theorem startAt_done (now : Int) (F : Nat) (l : List Dt) (id : Nat) (he : AllC (
       refine ⟨by simp [startSelf, trigSelf, noteTriggered, markTriggered, noteStarted, live_id hzl],
         by simp [startSelf, trigSelf, noteTriggered, markTriggered, noteStarted, live_not_removed hzl], Or.inl ?_⟩
       by_cases h0 : z.trigger = 0 <;>
-        simp [startSelf, trigSelf, noteTriggered, markTriggered, noteStarted, h0, ht]
+        simp [startSelf, trigSelf, noteTriggered, markTriggered, noteStarted, h0]
+      omega
     have h2 := both_cascade (trigRel_RC now (max z.start z.entry)) F _ ⟨rfl, ht⟩ z.triggers
       (updateDt l id (startSelfG now)) (allc_trivial _)
     obtain ⟨x', hx', r⟩ := h2.1 _ hm
@@ -264,13 +265,13 @@ theorem chkFixedStarted_model (sp : SpecSt) (st : St) (op : Op) (hrel : RelS sp 
 /-- An accepted non-OK result at `now` triggers every existing, not yet triggered flexible downtime with
     `start ≤ now ≤ end`, with the result's execution end as trigger time. -/
 theorem result_triggers_flexible (st : St) (now : Int) (s : Nat) (te : Int) (hs : stale st te now = false)
-    (hok : isOK st.kind s = false) (hte : te ≠ 0) (d : Dt) (hd : d ∈ st.dts)
+    (hok : isOK st.kind s = false) (hte : 0 < te) (d : Dt) (hd : d ∈ st.dts)
     (huniq : ∀ y ∈ st.dts, y.id = d.id → y = d) (hr : d.removed = false) (hf : d.fixed = false)
     (h0 : d.trigger = 0) (h1 : d.start ≤ now) (h2 : now ≤ d.fin) :
-    ∃ d' ∈ (resultOp st s te now).1.dts, d'.id = d.id ∧ d'.removed = false ∧ d'.trigger = te := by
+    ∃ d' ∈ (resultOp st s te now).1.dts, d'.id = d.id ∧ d'.removed = false ∧ d'.trigger = max te d.start := by
   have hcan := can_of_fresh_flexible hf h0 h1 h2
   have tr := trigRel_RC now te
-  have htk : (fun t' => t' = te ∧ te ≠ 0) te := ⟨rfl, hte⟩
+  have htk : (fun t' => t' = te ∧ 0 < te) te := ⟨rfl, hte⟩
   have hdts : (resultOp st s te now).1.dts = triggerAll now te st.dts := by
     simp [resultOp, hs, hok]
   rw [hdts]
@@ -296,7 +297,7 @@ theorem result_triggers_flexible (st : St) (now : Int) (s : Nat) (te : Int) (hs 
   obtain ⟨y, hy, ry⟩ := h12.2 x2 hx2
   have hyd : y = d := huniq y hy (by rw [← ry.1]; exact hd2.1)
   subst hyd
-  have ht2 : x2.trigger = te := by
+  have ht2 : x2.trigger = max te y.start := by
     rcases rc_can now ry with ⟨_, h⟩ | h
     · exact h
     · rcases ry.2.2.2.2.2.2.2 with h7 | ⟨_, h7⟩
@@ -307,7 +308,7 @@ theorem result_triggers_flexible (st : St) (now : Int) (s : Nat) (te : Int) (hs 
   refine ⟨x3, hx3, by rw [r3.1]; exact hd2.1, by rw [r3.2.1]; exact hd2.2.1, ?_⟩
   rcases r3.2.2.2.2.2.2.2 with h7 | ⟨h7, _⟩
   · rw [h7]; exact ht2
-  · rw [ht2] at h7; exact absurd h7 hte
+  · rw [ht2] at h7; omega
 
 /-! ### Unchained downtimes are in nobody's `triggers` -/
 
@@ -635,11 +636,11 @@ theorem chkFlexible_model (sp : SpecSt) (st : St) (op : Op) (hrel : RelS sp st) 
           by_cases hwin : sd.inWindow now = true
           · simp only [flexDue, hrc, hrel.1, hok', hwin, beq_self_eq_true, Bool.not_false, Bool.and_self, if_true]
             simp only [SDt.inWindow, Bool.and_eq_true, decide_eq_true_eq, v.2.2.1, v.2.2.2.1] at hwin
-            have hte : te ≠ 0 := by have := hop.1; omega
+            have hte : 0 < te := by have := hop.1; omega
             obtain ⟨d'', hd'', hid'', _, ht''⟩ := result_triggers_flexible st now s te hs' hok' hte d hd_st
               (fun y hy hyid => eq_of_id hnd hy hd_st hyid) hr hdf hd0 hwin.1 hwin.2
             have : d'' = d' := eq_of_id hnd' hd'' hd' (by rw [hid'', r.1.1])
-            rw [← this]; exact ht''
+            rw [← this, v.2.2.1]; exact ht''
           · have hwin' : sd.inWindow now = false := by simpa using hwin
             simp only [flexDue, hrc, hwin', Bool.and_false, Bool.false_eq_true, if_false]
             cases Classical.em (d'.trigger = 0) with
@@ -691,6 +692,7 @@ theorem chkFlexible_model (sp : SpecSt) (st : St) (op : Op) (hrel : RelS sp st) 
               unfold addedDt
               rw [hfs, hsg _ (by simp [trigSelf, noteTriggered, markTriggered, newDt, hpf])]
               simp [setupCleanup, trigSelf, noteTriggered, markTriggered, newDt, hsd.1, hrel.2.2.2.2.1]
+              omega
             · have hwin' : sd.inWindow now = false := by simpa using hwin
               simp only [flexDue, hrc, hwin', Bool.and_false, Bool.false_eq_true, if_false]
               have hcan : canBeTriggered now (newDt st p now) = false := by
